@@ -124,7 +124,7 @@ impl Zerv {
 
             let new_value = if let Some(bump_val) = bump_val {
                 // Bump: add to base value (either override or current)
-                base_value + bump_val as u64
+                super::checked_bump(base_value, bump_val)?
             } else {
                 // No bump: use base value as-is
                 base_value
